@@ -463,7 +463,7 @@ inline DResult decode(const unsigned char* data, size_t n) {
     for (int k = 0; k < 4; ++k) {
         if (i >= n) { res.st = D_INCOMPLETE; return res; }
         uint8_t b = data[i++]; rl |= uint32_t(b & 0x7F) << shift; shift += 7;
-        if (!(b & 0x80)) { if (k > 0 && b == 0) { res.why = "non-minimal remaining length"; return res; } done = true; break; }
+        if (!(b & 0x80)) { if (k > 0 && b == 0 && dec_opts().ranges) { res.why = "non-minimal remaining length"; return res; } /* minimal encoding is a value rule: structural mode tolerates it */ done = true; break; }
     }
     if (!done) { res.why = "remaining length > 4 bytes"; return res; }
     uint8_t type = b0 >> 4, flags = b0 & 0x0F;
@@ -510,7 +510,7 @@ inline DResult decode(const unsigned char* data, size_t n) {
     case PUBLISH: {
         p.topic = r.str();
         if (r.fail) return bad("topic");
-        for (char c : p.topic) if (c == '#' || c == '+') return bad("wildcard in topic name");
+        if (dec_opts().ranges) for (char c : p.topic) if (c == '#' || c == '+') return bad("wildcard in topic name"); /* content of a string: value rule */
         if (p.qos() > 0) { p.has_pid = true; p.pid = r.u16(); if (r.fail || (p.pid == 0 && dec_opts().ranges)) return bad("packet id"); }   // id 0 is a value rule, not a framing rule
         else if (p.dup()) return bad("DUP with QoS 0");
         if (!dec_props(r, PUBLISH, p.props, why)) return bad("props");
